@@ -89,6 +89,7 @@ var c15Queries = []struct{ name, raw string }{
 	{"m[] once", "q=query-q&m%5B%5D=qm1"},
 	{"m[] twice", "m%5B%5D=qm1&m%5B%5D=qm2"},
 	{"malformed", "q=%zz&x=query-x"},
+	{"semicolon separator", "q=query-q;x=query-x&l=ql1"},
 }
 
 func c15Skel(req bool) *Skel {
